@@ -129,17 +129,59 @@ def run(ctx, res):
                     res.add_violation(f"group-sum:{c}", f"{c[:-1]}y_hh is not 12 * {c}_hh on {impl.iso(o)}", dict(kind="group-sum", date=impl.iso(o), column=c), True)
             except Exception as ex:  # noqa: BLE001
                 stats["skipped"][f"{impl.iso(o)}:{c}_hh"] = f"{type(ex).__name__}: {str(ex)[:80]}"
+        # (d) a column that is a RULE in one unit is supplied as data in another unit: the two remaining units (and their
+        #     household sums) must be the supplied column times the factor, not the rule's own result
+        import numpy as np
+        rule_flows = []
+        for n in nodes:
+            m = PAT.fullmatch(n)
+            k = d["nodes"][n]["kind"]
+            if m is None or m.group("agg") or not isinstance(k, dict) or k.get("k") != "rule" or d["nodes"][n].get("annotations", {}).get("return") != "float":
+                continue
+            others = [f"{m.group('base')}{u}" for u in "ymwd" if u != m.group("unit")]
+            if any(x in df.columns or (x in d["nodes"] and isinstance(d["nodes"][x]["kind"], dict) and d["nodes"][x]["kind"].get("k") == "rule") for x in others):
+                continue
+            rule_flows.append(n)
+        for n in rnd.sample(rule_flows, min(len(rule_flows), 6 if ctx.tier == "quick" else 30)):
+            m = PAT.fullmatch(n)
+            base, unit = m.group("base"), m.group("unit")
+            u2 = rnd.choice([u for u in "ymwd" if u != unit])
+            rest = [u for u in "ymwd" if u not in (unit, u2)]
+            given = f"{base}{u2}"
+            vals = np.arange(len(df), dtype=float) * 37.5 + 100.25
+            d2 = df.copy()
+            d2[given] = vals
+            tg = [f"{base}{u}" for u in rest] + [f"{base}{rest[0]}_hh"]
+            try:
+                with_data, _ = engine.simulate(d2, o, targets=tg)
+            except Exception as ex:  # noqa: BLE001
+                stats["skipped"][f"{impl.iso(o)}:{given} as data"] = f"{type(ex).__name__}: {str(ex)[:80]}"
+                continue
+            stats["rule_supplied_in_other_unit"] = stats.get("rule_supplied_in_other_unit", 0) + 1
+            hh = df["hh_id"].to_numpy()
+            for u in rest:
+                fac = float(PER_YEAR[u2] / PER_YEAR[u])
+                exp = vals * fac
+                checks = [(f"{base}{u}", exp)]
+                if u == rest[0]:
+                    checks.append((f"{base}{u}_hh", np.array([exp[hh == h].sum() for h in hh])))
+                for x, e in checks:
+                    stats["unit_columns_compared"] += 1
+                    if not metam.col_close(with_data[x].to_numpy().astype(float), e, tol=1e-9):
+                        w = metam.first_diff(with_data[x].to_numpy().astype(float), e, list(df["p_id"]))
+                        res.add_violation(f"data-unit:{given}->{x}", f"{given} is supplied as data (the rule is {n}) on {impl.iso(o)}, but {x} is not derived from it with factor {PER_YEAR[u2] / PER_YEAR[u]}: {w}",
+                                          dict(kind="data-unit", date=impl.iso(o), given=given, rule=n, column=x, values=list(vals), witness=w), True)
         if len(res.samples) < 3:
             res.samples.append(dict(unit="unit variants", date=impl.iso(o), flows=pick[:5]))
     for ob in failing:
         if not any(v["found_input"] for v in res.violations):
             res.add_violation(f"obligation:{ob['name'].rsplit('_', 1)[0]}", f"obligation {ob['name']} no longer checks: {(ob.get('diag') or ob['err'])[:300]}",
                               dict(kind="obligation", obligation=ob["name"], diag=ob.get("diag"), err=ob["err"]), False)
-    res.evaluations += stats["flows"] + stats["other_unit_inputs"] + stats["group_commutes"]
-    res.distinct += stats["flows"] + stats["other_unit_inputs"] + stats["group_commutes"]
+    res.evaluations += stats["flows"] + stats["other_unit_inputs"] + stats["group_commutes"] + stats.get("rule_supplied_in_other_unit", 0)
+    res.distinct += stats["flows"] + stats["other_unit_inputs"] + stats["group_commutes"] + stats.get("rule_supplied_in_other_unit", 0)
     res.extra["engine"] = stats
     res.rule = ("per date: for sampled flow names (thorough: all) of the default graph and the input table, all existing unit variants are "
-                "requested together and must differ exactly by periods-per-year ratios (1e-9); six inputs are supplied in another unit instead "
+                "requested together and must differ exactly by periods-per-year ratios (1e-9); rule columns are supplied as data in another unit and the remaining units (and household sums) must follow the data; six inputs are supplied in another unit instead "
                 "and all default targets must be unchanged (1e-7); x_y_hh must be 12 * x_m_hh. distinct = distinct (date, flow) requests.")
 
 
